@@ -14,8 +14,9 @@
 
 enum { S_PLAIN, S_CANCEL_BEFORE_SUBMIT, S_CANCEL_BEHIND_GATE, S_CANCEL_WHILE_RUNNING, S_N };
 static const char *const s_names[] = { "plain(race)", "cancel-before-submit", "cancel-behind-gate", "cancel-while-running" };
-enum { SUB_ASYNC, SUB_SYNC, SUB_GROUP_ASYNC, SUB_DIRECT, SUB_BARRIER_ASYNC, SUB_N };
-static const char *const sub_names[] = { "async", "sync", "group_async", "direct-invocation", "barrier_async" };
+enum { SUB_ASYNC, SUB_SYNC, SUB_GROUP_ASYNC, SUB_DIRECT, SUB_BARRIER_ASYNC, SUB_BARRIER_SYNC, SUB_ASYNC_AND_WAIT, SUB_AFTER, SUB_GROUP_NOTIFY, SUB_N };
+#define SUB_IS_SYNC(s) ((s) == SUB_SYNC || (s) == SUB_DIRECT || (s) == SUB_BARRIER_SYNC || (s) == SUB_ASYNC_AND_WAIT)
+static const char *const sub_names[] = { "async", "sync", "group_async", "direct-invocation", "barrier_async", "barrier_sync", "async_and_wait", "dispatch_after", "group_notify" };
 
 typedef struct { uint64_t reg_call, reg_ret, start; _Atomic uint32_t runs; struct bcase *c; } bntf_t;
 typedef struct { uint64_t call, ret, deadline, now_after; int rc; uint8_t timed, clk; } bwait_t;
@@ -38,7 +39,8 @@ typedef struct bcase {
 } bcase_t;
 
 typedef struct btrial {
-	dispatch_queue_t qs[3];
+	dispatch_queue_t qs[5];   /* serial, concurrent, global, workloop, serial over (serial | workloop) */
+	dispatch_group_t empty_grp;
 	dispatch_group_t grp;
 	uint64_t salt;
 	int ncases;
@@ -76,7 +78,7 @@ static void add_notify(bcase_t *c, vf_rng_t *r)
 	bntf_t *n = &c->ntf[i];
 	n->c = c;
 	n->reg_call = vf_stamp();
-	dispatch_block_notify(c->b, c->t->qs[vf_rnd_n(r, 3)], ^{ ntf_run(n); });
+	dispatch_block_notify(c->b, c->t->qs[vf_rnd_n(r, 5)], ^{ ntf_run(n); });
 	n->reg_ret = vf_stamp();
 }
 
@@ -150,10 +152,11 @@ static void run_case(bdrv_t *d, int ci)
 	c->t = t;
 	c->scen = (int)vf_rnd_n(r, S_N + 2); if (c->scen >= S_N) c->scen = S_PLAIN;
 	c->sub = (int)vf_rnd_n(r, SUB_N);
-	int qi = (int)vf_rnd_n(r, 3);
-	if (c->scen == S_CANCEL_BEHIND_GATE) { qi = 0; c->sub = vf_rnd_n(r, 2) ? SUB_ASYNC : SUB_GROUP_ASYNC; }
-	if (c->scen == S_CANCEL_WHILE_RUNNING) { c->hold = 1; if (c->sub == SUB_SYNC || c->sub == SUB_DIRECT) c->sub = SUB_ASYNC; }
+	int qi = (int)vf_rnd_n(r, 5);
+	if (c->scen == S_CANCEL_BEHIND_GATE) { qi = vf_rnd_n(r, 3) ? 0 : 4; c->sub = vf_rnd_n(r, 2) ? SUB_ASYNC : SUB_GROUP_ASYNC; }
+	if (c->scen == S_CANCEL_WHILE_RUNNING) { c->hold = 1; if (SUB_IS_SYNC(c->sub)) c->sub = SUB_ASYNC; }
 	if (c->sub == SUB_BARRIER_ASYNC && qi != 1) c->sub = SUB_ASYNC;
+	if (qi == 3 && (c->sub == SUB_SYNC || c->sub == SUB_BARRIER_SYNC)) c->sub = SUB_ASYNC_AND_WAIT;   /* no dispatch_sync onto a workloop */
 	static const dispatch_block_flags_t fl[] = { 0, DISPATCH_BLOCK_BARRIER, DISPATCH_BLOCK_DETACHED, DISPATCH_BLOCK_ASSIGN_CURRENT,
 			DISPATCH_BLOCK_NO_QOS_CLASS, DISPATCH_BLOCK_INHERIT_QOS_CLASS, DISPATCH_BLOCK_ENFORCE_QOS_CLASS };
 	dispatch_block_flags_t flags = fl[vf_rnd_n(r, 7)];
@@ -172,7 +175,7 @@ static void run_case(bdrv_t *d, int ci)
 	gate_t gate; int gated = 0;
 	if (c->scen == S_CANCEL_BEHIND_GATE) {
 		sem_init(&gate.open, 0, 0); atomic_store(&gate.entered, 0);
-		dispatch_async_f(t->qs[0], &gate, gate_body);
+		dispatch_async_f(t->qs[qi], &gate, gate_body);
 		while (!atomic_load(&gate.entered)) sched_yield();
 		gated = 1;
 	}
@@ -184,6 +187,10 @@ static void run_case(bdrv_t *d, int ci)
 	case SUB_BARRIER_ASYNC: dispatch_barrier_async(q, c->b); break;
 	case SUB_SYNC: dispatch_sync(q, c->b); break;
 	case SUB_GROUP_ASYNC: dispatch_group_async(t->grp, q, c->b); break;
+	case SUB_BARRIER_SYNC: dispatch_barrier_sync(q, c->b); break;
+	case SUB_ASYNC_AND_WAIT: dispatch_async_and_wait(q, c->b); break;
+	case SUB_AFTER: dispatch_after(dispatch_time(DISPATCH_TIME_NOW, (int64_t)vf_rnd_n(r, 1500000)), q, c->b); break;
+	case SUB_GROUP_NOTIFY: dispatch_group_notify(t->empty_grp, q, c->b); break;   /* an empty group: submitted at once */
 	default: c->b(); break;
 	}
 	c->sub_ret = vf_stamp();
@@ -234,7 +241,7 @@ static void check_case(bcase_t *c)
 		vf_violation("C19:body-never-ran", "block object that was never cancelled ran %u times (%s)", runs, what);
 	} else if (c->cancelled && c->scen == S_PLAIN) {
 		if (runs) atomic_fetch_add(&t->race_ran, 1); else atomic_fetch_add(&t->race_skipped, 1);
-		if (runs == 0 && c->cancel_call > c->sub_ret && (c->sub == SUB_SYNC || c->sub == SUB_DIRECT)) {
+		if (runs == 0 && c->cancel_call > c->sub_ret && SUB_IS_SYNC(c->sub)) {
 			vf_violation("C19:body-skipped-without-cancel", "synchronously executed block object did not run its body although cancel was only called afterwards (%s)", what);
 		}
 	}
@@ -296,7 +303,14 @@ static void run_trial(int idx)
 	t->qs[0] = dispatch_queue_create("vf.block.serial", DISPATCH_QUEUE_SERIAL);
 	t->qs[1] = dispatch_queue_create("vf.block.conc", DISPATCH_QUEUE_CONCURRENT);
 	t->qs[2] = dispatch_get_global_queue(DISPATCH_QUEUE_PRIORITY_DEFAULT, 0);
+	t->qs[3] = (dispatch_queue_t)dispatch_workloop_create("vf.block.workloop");
+	{
+		dispatch_queue_t base = vf_rnd_n(&r, 2) ? dispatch_queue_create("vf.block.base", DISPATCH_QUEUE_SERIAL) : (dispatch_queue_t)dispatch_workloop_create("vf.block.base-workloop");
+		t->qs[4] = dispatch_queue_create_with_target("vf.block.serial-over-serial", DISPATCH_QUEUE_SERIAL, base);
+		dispatch_release(base);
+	}
 	t->grp = dispatch_group_create();
+	t->empty_grp = dispatch_group_create();
 	int nd = (int)vf_rnd_range(&r, 1, 4);
 	t->ncases = (int)((long)(t->prof.kind == VF_P_OFF ? 1500 : 500) * vf_opts.scale / 100) + 1;
 	bdrv_t *d = calloc((size_t)nd, sizeof(*d));
@@ -331,7 +345,7 @@ static void run_trial(int idx)
 			(atomic_load(&t->waits_tmo) && atomic_load(&t->cancelled_skipped)) ? "true" : "false", idx, nd, (unsigned long long)atomic_load(&t->cases),
 			(unsigned long long)atomic_load(&t->bodies_run), (unsigned long long)atomic_load(&t->cancelled_skipped), (unsigned long long)atomic_load(&t->race_ran), (unsigned long long)atomic_load(&t->race_skipped),
 			(unsigned long long)atomic_load(&t->waits_ok), (unsigned long long)atomic_load(&t->waits_tmo), (unsigned long long)atomic_load(&t->ntf_total), t->prof.desc);
-	dispatch_release(t->qs[0]); dispatch_release(t->qs[1]); dispatch_release(t->grp);
+	dispatch_release(t->qs[0]); dispatch_release(t->qs[1]); dispatch_release(t->qs[3]); dispatch_release(t->qs[4]); dispatch_release(t->grp); dispatch_release(t->empty_grp);
 	free(d); free(t);
 }
 
